@@ -442,6 +442,77 @@ func (s *sys) runBaseChdir(d string) (got, want result) {
 	return g.res, w.res
 }
 
+// runSub executes an operation made through the view returned by v.Sub(o.Dir).
+// deny: the view on the wrapper's side does not advertise FeatSymlink while this
+// one (the reference's) does: the symbolic-link calls are answered as by a file
+// system without that feature (and have no effect). viewSymlink reports whether
+// the view obtained here advertises FeatSymlink (false when Sub failed).
+//
+// Sub:call: subs "Sub", then those of the call with their labels.
+// SubLink:  subs "Sub", "Symlink", then the link is met through v - "Lstat",
+// "Stat", "ReadFile", "ReadDir" of o.Dir/link - and through the view -
+// "sv.Stat", "sv.ReadFile" of link.
+// SubLinkW: subs "Sub", "Symlink", then the link is written through v and
+// through the view - "WriteFile", "sv.WriteFile". (Apart: what a read answers
+// from is decided by probing the base after the step.)
+func runSub(v avfs.VFS, o opT, deny bool) (res result, viewSymlink bool) {
+	r := &runner{}
+
+	var sv avfs.VFS
+
+	if !r.do("Sub", func(*sub) (err error) { sv, err = v.Sub(o.Dir); return err }) || sv == nil {
+		return r.res, false
+	}
+
+	viewSymlink = sv.HasFeature(avfs.FeatSymlink)
+	deny = deny && viewSymlink
+
+	inner := func(v avfs.VFS, prefix string, in opT) {
+		var ir result
+
+		if deny && symlinkCalls[in.Call] {
+			ir = noSymlinkResult(in)
+		} else {
+			ir = run(v, in)
+		}
+
+		for _, sb := range ir.Subs {
+			if prefix != "" {
+				sb.Label = strings.TrimSuffix(prefix+"."+sb.Label, ".")
+			}
+
+			r.res.Subs = append(r.res.Subs, sb)
+		}
+	}
+
+	if !isSubLink(o) {
+		inner(sv, "", opT{Call: strings.TrimPrefix(o.Call, subPrefix), A: o.A, B: o.B, Two: o.Two})
+
+		return r.res, viewSymlink
+	}
+
+	through := strings.TrimSuffix(o.Dir, "/") + o.B // the link's name for v
+
+	inner(sv, "Symlink", opT{Call: "Symlink", A: o.A, B: o.B, Two: true})
+
+	if o.Call == "SubLinkW" {
+		inner(v, "WriteFile", opT{Call: "WriteFile", A: through})
+		inner(sv, "sv.WriteFile", opT{Call: "WriteFile", A: o.B})
+
+		return r.res, viewSymlink
+	}
+
+	for _, c := range []string{"Lstat", "Stat", "ReadFile", "ReadDir"} {
+		inner(v, c, opT{Call: c, A: through})
+	}
+
+	for _, c := range []string{"Stat", "ReadFile"} {
+		inner(sv, "sv."+c, opT{Call: c, A: o.B})
+	}
+
+	return r.res, viewSymlink
+}
+
 // noSymlinkResult is the answer of a file system that does not advertise
 // FeatSymlink (what OrefaFS answers, what avfs documents for the feature being
 // absent): a permission error carrying the arguments as given, no effect.
